@@ -23,6 +23,8 @@ open Drv_tmpl
      D43  finding_D43 trees (a text node of the template ends inside a tag name) AND, in the placement stream,
           the offending bytes were consumed as part of a tag name;
      D1   finding_D1 trees (a template called from >= 2 sites whose body changes the context);
+     D48  Drv_tmpl.split_name_finding text (an attribute name split over several text nodes; an OCaml predicate on
+          the template text, shared with C02);
      D45  finding_D45 text (the name of a special element is directly followed by a byte that ends the name
           for the engine but not for the tokenizer) AND the failing clause is a comment token in the output.
    (D41, D44 and the other shapes of D13 - engine / tokenizer misalignments on the author's static markup - were tagged here by
@@ -73,6 +75,7 @@ let finding_tag ?(clause = "") ~(text : V.n list) ~(parsed : string) (w : where)
   else begin
     let trees = try trees_of_wire parsed with _ -> [] in
     if w.tagname && V.finding_D43 trees then "\tfinding=D43"
+    else if Drv_tmpl.split_name_finding (string_of_bytes text) then "\tfinding=D48"
     else if V.finding_D1 trees then "\tfinding=D1"
     else ""
   end
